@@ -454,6 +454,14 @@ where
                         .await
                 }
             }
+            Decoded::Packet(
+                pkt @ (codec::Packet::SubscribeAck(_) | codec::Packet::UnsubscribeAck(_)),
+                _,
+            ) => Err(ProtocolError::unexpected_packet(
+                pkt.packet_type(),
+                "Packet of the type is not expected from client",
+            )
+            .into()),
             Decoded::Packet(_, _) => Ok(None),
         }
     }
